@@ -265,4 +265,13 @@ theorem handleIdx_throw (h : Heap) (a b : List (Op × Nat)) (x i : Nat) (hab : (
   simp only [handleIdx, e1, e2, e3, hab1, hab2]
   exact ⟨trivial, trivial, (e4.append_right _)⟩
 
+/-- no pop of the batch has a throwing element assignment (see `cpq_pop_throw_not_isolated` for what the code
+does otherwise) -/
+def NoThrowingPop (ops : List Op) : Prop := ∀ o ∈ ops, o ≠ .pop true
+
+theorem noPopThrow_zipIdx (ops : List Op) (h : NoThrowingPop ops) : NoPopThrow ops.zipIdx := by
+  intro p hp
+  have := List.mem_zipIdx hp
+  exact h p.1 (by obtain ⟨o, i⟩ := p; simp at this; rw [this.2]; exact List.getElem_mem _)
+
 end TbbVerif.C13
